@@ -20,6 +20,18 @@ decisions taken here are Python's static ones:
     callable like an earlier function of the module (the Lean side runs the module after the imported one:
     `conversions ++ constants`); `IndexSizeErrorException` imported from `.exceptions` is an exception class, after checking
     that its base class is the one the interpreter assumes (`ValueError`).
+  * a module-level name bound exactly once, to an integer constant (`MAX_CACHED_EXPRESSIONS = 10`), is NOT inlined: it is
+    dumped as `Expr.global` (read at call time; a parameter of the theorems);
+  * methods of a class (`CLASSES`): the first parameter (`self`) may only occur as `self.<name>`, never alone and never
+    assigned; `self.f.m(args)` as an expression STATEMENT is `Stmt.fieldCall` (the mutating methods live there),
+    `self.f = e` / `self.f[k] = v` / `del self.f[k]` are `Stmt.setAttr/setItem/delItem`; `self.m(args)` is allowed only
+    for a static method `m` of the class whose body is checked to be the expected wrapper around a primitive
+    (`getKeyForExpressionStr`: sha1 of the encoded text) — it becomes a parameter of the interpreter (`Ctx.selfMeth`);
+    `[]`, `{}`, `threading.Lock()` (module `threading` imported, not rebound) are `Expr.newList/newDict/newLock`;
+  * the name of `except T as name` must not occur outside that handler (Python unbinds it there);
+  * `@staticmethod`s of a class listed in `STATIC_METHODS` are dumped as plain functions; `OrderedDict()` (imported once from
+    `collections`, not rebound) is `Expr.newDict` (a dict keeps insertion order); `x.append(v)` / `x.remove(v)` as an
+    expression statement on a local variable is `Stmt.varCall`, `x[k] = v` on a local variable is `Stmt.setItemVar`.
 Everything outside the subset raises `Untranslatable` with file:line — a broken tie, never a skip.  The module is never
 imported or executed.
 """
@@ -41,12 +53,33 @@ MODULES = [
     ('constants.py', 'constants', ['_special_value_rows', '_special_value_cols', '_special_value_autocomplete',
                                    '_special_value_size', '_special_value_maxLength']),
     ('utils.py', 'utils', ['escapeQuotes', 'unescapeQuotes']),
+    ('Tags.py', 'tags', ['isValidAttributeName']),
 ]
 
 # exception classes of the library that may be named, with the base class the interpreter assumes (PyAst.errIsA)
 LIBRARY_EXC = {('exceptions', 'IndexSizeErrorException'): 'ValueError'}
 
-BUILTIN_FUNCS = ('int', 'bool', 'str', 'hasattr', 'issubclass')
+# classes: (file, lean name of the list, class, methods to dump in this order, static methods taken as primitives with the
+# exact body (ast.unparse of the statements after the docstring) they must have and the module-level imports they rely on)
+CLASSES = [
+    ('xpath/_cache.py', 'xpath_cache', 'XPathExpressionCacheType',
+     ['__init__', 'getCachedExpression', 'setCachedExpression'],
+     {'getKeyForExpressionStr': (['expressionStr'],
+                                 ['expressionStr = ensureStringEncoded(expressionStr)',
+                                  'return sha1(expressionStr).hexdigest()'],
+                                 [('hashlib', 0, 'sha1'), ('compat', 2, 'ensureStringEncoded')])}),
+]
+
+# static methods of a class dumped as plain functions (a static method sees its parameters and the module, not the class):
+# (file, lean name of the list, class, names in this order)
+STATIC_METHODS = [
+    ('SpecialAttributes.py', 'special_attributes', 'StyleAttribute', ['camelCaseToDashName', 'styleToDict']),
+]
+
+BUILTIN_FUNCS = ('int', 'bool', 'str', 'hasattr', 'issubclass', 'len', 'list')
+# methods that change their receiver: `x.m(args)` as an expression statement on a local variable is `Stmt.varCall`
+MUTATORS = ('append', 'remove', 'acquire', 'release')
+BINOPS = {ast.Add: '.add', ast.Sub: '.sub', ast.Mult: '.mul'}
 BUILTIN_EXC = ('BaseException', 'Exception', 'ValueError', 'TypeError', 'KeyError', 'IndexError', 'AttributeError')
 LOCAL_IMPORTS = {('utils', 'tostr'): 'tostr'}
 
@@ -80,6 +113,10 @@ class _Module(object):
         self.const_tuples = {}         # X = ('a', 'b') bound once at module level -> the Tuple node
         self.imported_funcs = {}       # name -> sibling module file it is imported from (module-level `from .m import f`)
         self.imported_exc = set()      # library exception classes imported at module level
+        self.int_consts = set()        # X = 10 bound once at module level
+        self.classes = {}              # name -> ClassDef (top level)
+        self.plain_imports = set()     # `import m` at module level
+        self.from_imports = set()      # (module, level, name) of `from m import name` at module level
         self._scan()
 
     def fail(self, node, what):
@@ -89,6 +126,7 @@ class _Module(object):
         for st in self.tree.body:
             if isinstance(st, ast.ClassDef):
                 self.rebound.add(st.name)
+                self.classes[st.name] = st
                 bare = (not st.decorator_list and not st.keywords
                         and all(isinstance(b, ast.Name) and b.id == 'object' for b in st.bases)
                         and all(isinstance(s, ast.Pass) or (isinstance(s, ast.Expr) and isinstance(s.value, ast.Constant)
@@ -111,9 +149,20 @@ class _Module(object):
                         and all(isinstance(e, ast.Constant) and (e.value is None or isinstance(e.value, (str, int, bool)))
                                 for e in st.value.elts):
                     self.const_tuples[st.targets[0].id] = st.value
+                if len(st.targets) == 1 and isinstance(st.targets[0], ast.Name) and isinstance(st.value, ast.Constant) \
+                        and isinstance(st.value.value, int) and not isinstance(st.value.value, bool):
+                    self.int_consts.add(st.targets[0].id)
             elif isinstance(st, (ast.Import, ast.ImportFrom)):
                 for a in st.names:
                     self.rebound.add((a.asname or a.name).split('.')[0])
+                if isinstance(st, ast.Import):
+                    for a in st.names:
+                        if a.asname is None and '.' not in a.name:
+                            self.plain_imports.add(a.name)
+                else:
+                    for a in st.names:
+                        if a.asname is None:
+                            self.from_imports.add((st.module or '', st.level, a.name))
                 if isinstance(st, ast.ImportFrom) and st.level == 1 and st.module:
                     for a in st.names:
                         if a.asname is None:
@@ -147,6 +196,9 @@ class _Module(object):
         self.const_tuples = dict((k, v) for k, v in self.const_tuples.items() if counts.get(k, 0) == 1)
         self.imported_funcs = dict((k, v) for k, v in self.imported_funcs.items() if counts.get(k, 0) == 1)
         self.imported_exc = set(k for k in self.imported_exc if counts.get(k, 0) == 1)
+        self.int_consts = set(k for k in self.int_consts if counts.get(k, 0) == 1)
+        self.plain_imports = set(k for k in self.plain_imports if counts.get(k, 0) == 1)
+        self.from_imports = set(k for k in self.from_imports if counts.get(k[2], 0) == 1)
 
     def check_whole_module(self):
         """Every module-level statement is one we understand (used when the whole file is claimed)."""
@@ -212,14 +264,19 @@ def _check_tostr(repo):
 
 
 class _FunTranslator(object):
-    def __init__(self, mod, fn, earlier):
+    def __init__(self, mod, fn, earlier, prims=None, lean_name=None, static=False):
         self.mod = mod
         self.fn = fn
         self.earlier = earlier          # names of the module functions defined before this one
+        self.prims = prims              # None: a plain function; else the static methods callable as self.m(...)
+        self.lean_name = lean_name or (fn.name + '_ast')
         a = fn.args
         if a.vararg or a.kwarg or a.kwonlyargs or getattr(a, 'posonlyargs', []) or a.kw_defaults:
             mod.fail(fn, 'parameter kinds outside the subset')
-        if fn.decorator_list:
+        if static:
+            if [ast.unparse(d) for d in fn.decorator_list] != ['staticmethod']:
+                mod.fail(fn, 'not a plain @staticmethod')
+        elif fn.decorator_list:
             mod.fail(fn, 'decorator')
         self.params = [p.arg for p in a.args]
         self.locals = set(self.params)
@@ -240,11 +297,39 @@ class _FunTranslator(object):
         clash = self.locals & set(self.imported)
         if clash:
             mod.fail(fn, 'an imported name is also assigned: %s' % sorted(clash))
+        self.self_name = None
+        if prims is not None:
+            if not self.params:
+                mod.fail(fn, 'a method without parameters')
+            self.self_name = self.params[0]
+            ok_uses = set()
+            for n in ast.walk(fn):
+                if isinstance(n, ast.Attribute) and isinstance(n.value, ast.Name) and n.value.id == self.self_name:
+                    ok_uses.add(id(n.value))
+            for n in ast.walk(fn):
+                if isinstance(n, ast.Name) and n.id == self.self_name:
+                    if not isinstance(n.ctx, ast.Load) or id(n) not in ok_uses:
+                        mod.fail(n, '%s used otherwise than as %s.<name>' % (self.self_name, self.self_name))
+        # `except T as name`: the name lives in that handler only
+        for n in ast.walk(fn):
+            if isinstance(n, ast.ExceptHandler) and n.name is not None:
+                inside = sum(1 for b in n.body for m in ast.walk(b) if isinstance(m, ast.Name) and m.id == n.name)
+                total = sum(1 for m in ast.walk(fn) if isinstance(m, ast.Name) and m.id == n.name)
+                if inside != total or n.name in self.params:
+                    mod.fail(n, 'the name of `except … as %s` is used outside the handler' % n.name)
+                self.locals.add(n.name)
         if 'tostr' in self.imported.values():
             _check_tostr(mod.repo)
 
     def fail(self, node, what):
         self.mod.fail(node, what)
+
+    def self_field(self, n):
+        """`self.f` -> 'f', anything else -> None"""
+        if self.self_name is not None and isinstance(n, ast.Attribute) and isinstance(n.value, ast.Name) \
+                and n.value.id == self.self_name:
+            return n.attr
+        return None
 
     # ---- expressions -----------------------------------------------------------------------
     def const(self, n):
@@ -285,7 +370,33 @@ class _FunTranslator(object):
                 return '(.excClass %s)' % lean_str(n.id)
             if n.id in self.mod.const_tuples:
                 return self.expr(self.mod.const_tuples[n.id], module_scope=True)
-            self.fail(n, 'name %s is neither local, a module singleton / constant tuple nor an exception class' % n.id)
+            if n.id in self.mod.int_consts:
+                return '(.global %s)' % lean_str(n.id)
+            self.fail(n, 'name %s is neither local, a module singleton / constant (tuple) nor an exception class' % n.id)
+        if isinstance(n, ast.List) and isinstance(n.ctx, ast.Load) and not n.elts:
+            return '.newList'
+        if isinstance(n, ast.Dict) and not n.keys:
+            return '.newDict'
+        if isinstance(n, ast.BinOp):
+            op = BINOPS.get(type(n.op))
+            if op is None:
+                self.fail(n, 'binary operator')
+            return '(.binop %s %s %s)' % (op, self.expr(n.left, module_scope), self.expr(n.right, module_scope))
+        if isinstance(n, ast.Subscript):
+            if not isinstance(n.ctx, ast.Load):
+                self.fail(n, 'subscript in a store context')
+            sl = n.slice
+            if isinstance(sl, ast.Slice):
+                if sl.step is not None:
+                    self.fail(n, 'slice with a step')
+                if sl.lower is None and sl.upper is not None:
+                    return '(.sliceTo %s %s)' % (self.expr(n.value, module_scope), self.expr(sl.upper, module_scope))
+                if sl.lower is not None and sl.upper is None:
+                    return '(.sliceFrom %s %s)' % (self.expr(n.value, module_scope), self.expr(sl.lower, module_scope))
+                self.fail(n, 'slice with both or no bounds')
+            if isinstance(sl, ast.Tuple):
+                self.fail(n, 'tuple subscript')
+            return '(.index %s %s)' % (self.expr(n.value, module_scope), self.expr(sl, module_scope))
         if isinstance(n, ast.Tuple):
             if not isinstance(n.ctx, ast.Load):
                 self.fail(n, 'tuple target')
@@ -325,6 +436,9 @@ class _FunTranslator(object):
                     self.fail(n, 'starred argument')
             args = '[%s]' % ', '.join(self.expr(a, module_scope) for a in n.args)
             f = n.func
+            if isinstance(f, ast.Name) and f.id == 'OrderedDict' and not n.args and f.id not in self.locals \
+                    and ('collections', 0, 'OrderedDict') in self.mod.from_imports:
+                return '.newDict'
             if isinstance(f, ast.Name):
                 if not module_scope and f.id in self.locals:
                     return '(.callv (.var %s) %s)' % (lean_str(f.id), args)
@@ -338,6 +452,13 @@ class _FunTranslator(object):
                     self.fail(n, 'call of %s, which is not defined earlier in the module as a function' % f.id)
                 self.fail(n, 'call of unknown function %s' % f.id)
             if isinstance(f, ast.Attribute):
+                if isinstance(f.value, ast.Name) and f.value.id == 'threading' and f.attr == 'Lock' and not n.args \
+                        and 'threading' in self.mod.plain_imports and 'threading' not in self.locals:
+                    return '.newLock'
+                if self.self_name is not None and isinstance(f.value, ast.Name) and f.value.id == self.self_name:
+                    if f.attr not in self.prims:
+                        self.fail(n, 'call of the method %s, which is not a checked static primitive' % f.attr)
+                    return '(.meth (.var %s) %s %s)' % (lean_str(self.self_name), lean_str(f.attr), args)
                 return '(.meth %s %s %s)' % (self.expr(f.value, module_scope), lean_str(f.attr), args)
             return '(.callv %s %s)' % (self.expr(f, module_scope), args)
         if isinstance(n, ast.Attribute):
@@ -371,11 +492,66 @@ class _FunTranslator(object):
         if isinstance(st, ast.Expr):
             if isinstance(st.value, ast.Constant) and isinstance(st.value.value, str):
                 return None                                     # docstring
+            v = st.value
+            if isinstance(v, ast.Call) and isinstance(v.func, ast.Attribute) and self.self_field(v.func.value) is not None:
+                if v.keywords or any(isinstance(a, ast.Starred) for a in v.args):
+                    self.fail(st, 'keyword / starred arguments')
+                return comment, ['%s.fieldCall %s %s %s [%s]' % (
+                    pad, lean_str(self.self_name), lean_str(self.self_field(v.func.value)), lean_str(v.func.attr),
+                    ', '.join(self.expr(a) for a in v.args))]
+            if isinstance(v, ast.Call) and isinstance(v.func, ast.Attribute) and isinstance(v.func.value, ast.Name) \
+                    and v.func.value.id in self.locals and v.func.value.id != self.self_name and v.func.attr in MUTATORS:
+                if v.keywords or any(isinstance(a, ast.Starred) for a in v.args):
+                    self.fail(st, 'keyword / starred arguments')
+                return comment, ['%s.varCall %s %s [%s]' % (pad, lean_str(v.func.value.id), lean_str(v.func.attr),
+                                                           ', '.join(self.expr(a) for a in v.args))]
             return comment, ['%s.expr %s' % (pad, self.expr(st.value))]
         if isinstance(st, ast.ImportFrom):
             return None                                         # checked in __init__
         if isinstance(st, ast.Pass):
             return comment, ['%s.pass' % pad]
+        if isinstance(st, ast.Assign) and len(st.targets) == 1 and self.self_field(st.targets[0]) is not None:
+            return comment, ['%s.setAttr %s %s %s' % (pad, lean_str(self.self_name), lean_str(self.self_field(st.targets[0])),
+                                                     self.expr(st.value))]
+        if isinstance(st, ast.Assign) and len(st.targets) == 1 and isinstance(st.targets[0], ast.Subscript) \
+                and self.self_field(st.targets[0].value) is not None:
+            t = st.targets[0]
+            if isinstance(t.slice, (ast.Slice, ast.Tuple)):
+                self.fail(st, 'slice / tuple assignment')
+            return comment, ['%s.setItem %s %s %s %s' % (pad, lean_str(self.self_name), lean_str(self.self_field(t.value)),
+                                                        self.expr(t.slice), self.expr(st.value))]
+        if isinstance(st, ast.Assign) and len(st.targets) == 1 and isinstance(st.targets[0], ast.Subscript) \
+                and isinstance(st.targets[0].value, ast.Name) and st.targets[0].value.id in self.locals \
+                and st.targets[0].value.id != self.self_name:
+            t = st.targets[0]
+            if isinstance(t.slice, (ast.Slice, ast.Tuple)):
+                self.fail(st, 'slice / tuple assignment')
+            return comment, ['%s.setItemVar %s %s %s' % (pad, lean_str(t.value.id), self.expr(t.slice), self.expr(st.value))]
+        if isinstance(st, ast.Delete):
+            if len(st.targets) != 1 or not isinstance(st.targets[0], ast.Subscript) \
+                    or self.self_field(st.targets[0].value) is None or isinstance(st.targets[0].slice, (ast.Slice, ast.Tuple)):
+                self.fail(st, 'del of something else than self.<field>[key]')
+            t = st.targets[0]
+            return comment, ['%s.delItem %s %s %s' % (pad, lean_str(self.self_name), lean_str(self.self_field(t.value)),
+                                                     self.expr(t.slice))]
+        if isinstance(st, ast.Break):
+            return comment, ['%s.brk' % pad]
+        if isinstance(st, ast.Continue):
+            return comment, ['%s.cont' % pad]
+        if isinstance(st, ast.While):
+            if st.orelse:
+                self.fail(st, 'while/else')
+            lines = ['%s.whileS %s [' % (pad, self.expr(st.test))]
+            lines += self.block(st.body, ind + 2)
+            lines.append('%s]' % pad)
+            return comment, lines
+        if isinstance(st, ast.For):
+            if st.orelse or not isinstance(st.target, ast.Name):
+                self.fail(st, 'for/else, loop target')
+            lines = ['%s.forS %s %s [' % (pad, lean_str(st.target.id), self.expr(st.iter))]
+            lines += self.block(st.body, ind + 2)
+            lines.append('%s]' % pad)
+            return comment, lines
         if isinstance(st, ast.Assign):
             if len(st.targets) != 1 or not isinstance(st.targets[0], ast.Name):
                 self.fail(st, 'assignment target')
@@ -401,8 +577,8 @@ class _FunTranslator(object):
             lines += self.block(st.body, ind + 2)
             lines.append('%s] [' % pad)
             for i, h in enumerate(st.handlers):
-                if h.name is not None:
-                    self.fail(h, 'except … as name')
+                if h.name is not None and h.type is None:
+                    self.fail(h, 'except as without a type')
                 if h.type is None:
                     ty = 'none'
                 elif isinstance(h.type, ast.Name) and h.type.id in BUILTIN_EXC and h.type.id not in self.mod.rebound \
@@ -411,7 +587,10 @@ class _FunTranslator(object):
                 else:
                     self.fail(h, 'exception type of the handler')
                 lines.append('%s  -- %s:%d: %s' % (pad, self.mod.rel, h.lineno, self.src(h)))
-                lines.append('%s  .mk %s [' % (pad, ty))
+                if h.name is not None:
+                    lines.append('%s  .mkAs %s %s [' % (pad, ty[len('(some '):-1], lean_str(h.name)))
+                else:
+                    lines.append('%s  .mk %s [' % (pad, ty))
                 lines += self.block(h.body, ind + 4)
                 lines.append('%s  ]%s' % (pad, ',' if i + 1 < len(st.handlers) else ''))
             lines.append('%s]' % pad)
@@ -433,7 +612,7 @@ class _FunTranslator(object):
                 params.append('(%s, none)' % lean_str(p.arg))
         lines = []
         lines.append('/-- %s:%d: `%s` -/' % (self.mod.rel, fn.lineno, self.src(fn).replace('-/', '- /')))
-        lines.append('def %s_ast : Fun :=' % fn.name)
+        lines.append('def %s : Fun :=' % self.lean_name)
         lines.append('  { name := %s' % lean_str(fn.name))
         lines.append('    params := [%s]' % ', '.join(params))
         lines.append('    body := [')
@@ -490,8 +669,74 @@ def generate_code(repo):
             parts.append('')
         if wanted is None:
             whole[rel] = (lean_name, [f.name for f in fns], set(mod.singletons))
+    for rel, lean_name, cls_name, methods, prims in CLASSES:
+        mod = _Module(repo, rel)
+        cls = mod.classes.get(cls_name)
+        if cls is None:
+            raise Untranslatable('%s: no top-level class %s' % (rel, cls_name))
+        if cls.decorator_list or cls.keywords or not all(isinstance(b, ast.Name) and b.id == 'object' for b in cls.bases):
+            mod.fail(cls, 'class with decorators / keywords / base classes other than object')
+        defs = {}
+        for st in cls.body:
+            if isinstance(st, ast.FunctionDef):
+                if st.name in defs:
+                    mod.fail(st, 'method %s is defined twice' % st.name)
+                defs[st.name] = st
+            elif not (isinstance(st, ast.Expr) and isinstance(st.value, ast.Constant) and isinstance(st.value.value, str)):
+                mod.fail(st, 'class-level statement outside the subset (%s)' % type(st).__name__)
+        for pname, (pargs, pbody, pimports) in sorted(prims.items()):
+            _check_static_prim(mod, defs.get(pname), cls_name, pname, pargs, pbody, pimports)
+        names = []
+        for m in methods:
+            if m not in defs:
+                raise Untranslatable('%s: class %s has no method %s' % (rel, cls_name, m))
+            ln = '%s_%s_ast' % (cls_name, m.strip('_'))
+            parts.append(_FunTranslator(mod, defs[m], [], prims=set(prims), lean_name=ln).translate())
+            parts.append('')
+            names.append(ln)
+        parts.append('/-- %s: the dumped methods of class %s -/' % (rel, cls_name))
+        parts.append('def %s : List Fun :=\n  [%s]' % (lean_name, ',\n   '.join(names)))
+        parts.append('')
+    for rel, lean_name, cls_name, wanted in STATIC_METHODS:
+        mod = _Module(repo, rel)
+        cls = mod.classes.get(cls_name)
+        if cls is None:
+            raise Untranslatable('%s: no top-level class %s' % (rel, cls_name))
+        defs = {}
+        for st in ast.walk(cls):
+            if isinstance(st, ast.FunctionDef):
+                defs.setdefault(st.name, []).append(st)
+        names = []
+        for m in wanted:
+            if len(defs.get(m, [])) != 1 or defs[m][0] not in cls.body:
+                raise Untranslatable('%s: class %s does not define %s exactly once' % (rel, cls_name, m))
+            ln = '%s_%s_ast' % (cls_name, m.strip('_'))
+            parts.append(_FunTranslator(mod, defs[m][0], [], lean_name=ln, static=True).translate())
+            parts.append('')
+            names.append(ln)
+        parts.append('/-- %s: the dumped static methods of class %s -/' % (rel, cls_name))
+        parts.append('def %s : List Fun :=\n  [%s]' % (lean_name, ',\n   '.join(names)))
+        parts.append('')
     parts.append('end AHP.Gen.Code')
     return '\n'.join(parts) + '\n'
+
+
+def _check_static_prim(mod, fn, cls_name, name, args, body, imports):
+    """A static method taken as a primitive: it must be exactly the expected wrapper (so that it cannot touch the object)."""
+    if fn is None:
+        raise Untranslatable('%s: class %s has no method %s' % (mod.rel, cls_name, name))
+    decos = [ast.unparse(d) for d in fn.decorator_list]
+    a = fn.args
+    if decos != ['staticmethod'] or a.vararg or a.kwarg or a.kwonlyargs or a.defaults or getattr(a, 'posonlyargs', []) \
+            or [p.arg for p in a.args] != list(args):
+        mod.fail(fn, '%s is not the expected @staticmethod(%s)' % (name, ', '.join(args)))
+    stmts = [s for s in fn.body if not (isinstance(s, ast.Expr) and isinstance(s.value, ast.Constant))]
+    if [ast.unparse(s) for s in stmts] != list(body):
+        mod.fail(fn, 'the body of %s is not the expected one (%s)' % (name, '; '.join(body)))
+    for imp in imports:
+        if imp not in mod.from_imports:
+            mod.fail(fn, '%s relies on `from %s%s import %s`, which is not there (or bound twice)'
+                     % (name, '.' * imp[1], imp[0], imp[2]))
 
 
 def regenerate(repo, target):
